@@ -1287,6 +1287,46 @@ fn run_workers(opts: &Opts) {
 		cx.emit(&mut w, &mut pool, "assert-read", json!({"k":"src","code":code,"full":true,"timeout_ms":5000}), json!({"strict":true}), Some(vec![want]), code.len());
 	}
 
+	// lazily computed arrays/objects whose elements read other elements of the SAME value while they are
+	// being computed (memo tables): re-entering the value's cache must neither panic nor be mistaken for
+	// self-dependence; an element that reads itself is infinite recursion
+	{
+		let mut progs: Vec<(String, &str)> = Vec::new();
+		for n in [1usize, 2, 6, 40] {
+			for (mk, len) in [
+				(format!("std.map(function(i) if i == 0 then 1 else t[i - 1] * 2 % 1000, std.range(0, {}))", n - 1), n),
+				(format!("std.makeArray({n}, function(i) if i == 0 then 1 else t[i - 1] + 1)"), n),
+				(format!("std.mapWithIndex(function(i, x) if i == 0 then x else t[i - 1] + x, std.repeat([1], {n}))"), n),
+				(format!("std.filterMap(function(x) true, function(i) if i == 0 then 1 else t[i - 1] + 1, std.range(0, {}))", n - 1), n),
+				(format!("[if i == 0 then 1 else t[i - 1] + 1 for i in std.range(0, {})]", n - 1), n),
+				(format!("std.map(function(i) if i == {} then 1 else t[i + 1] + 1, std.range(0, {}))", n - 1, n - 1), n),
+				(format!("std.map(function(i) std.length(t) + i, std.range(0, {}))", n - 1), n),
+			] {
+				let _ = len;
+				progs.push((format!("local t = {mk}; t"), "ok"));
+				progs.push((format!("local t = {mk}; std.foldl(function(a, b) a + b, t, 0)"), "ok"));
+				progs.push((format!("local t = {mk}; [t[std.length(t) - 1], t[0]]"), "ok"));
+			}
+		}
+		for mk in [
+			"std.map(function(x) t[0], [1])",
+			"std.makeArray(2, function(i) t[1 - i])",
+			"std.mapWithIndex(function(i, x) t[i], [1, 2])",
+			"[t[0]]",
+			"std.map(function(x) std.foldl(function(a, b) a + b, t, 0), [1, 2])",
+		] {
+			progs.push((format!("local t = {mk}; t"), "err:infrec"));
+			progs.push((format!("local t = {mk}; t[0]"), "err:infrec"));
+		}
+		// objects: a field reading its siblings through std.mapWithKey / objectValues views
+		progs.push(("local o = std.mapWithKey(function(k, v) if k == 'a' then 1 else o.a + v, { a: 0, b: 1, c: 2 }); o".into(), "ok"));
+		progs.push(("local o = { a: 1, b: std.objectValues(o)[0] + 1 }; o".into(), "ok"));
+		progs.push(("local o = std.mapWithKey(function(k, v) o[k], { a: 0 }); o".into(), "err:infrec"));
+		for (code, want) in progs {
+			cx.emit(&mut w, &mut pool, "self-read", json!({"k":"src","code":code,"full":true,"timeout_ms":5000}), json!({"strict":true}), Some(vec![want]), code.len());
+		}
+	}
+
 	// F. top-level arguments
 	let fsrcs = ["function(a) a", "function(a, b=2) [a, b]", "function() 1", "function(a, b) a + b", "function(a=1, b=2, c=3) [a,b,c]", "1", "{a: function(x) x}", "function(a, a) a", "function(a, a=1) a", "function(x) error 'e'", "function(a) function(b) a"];
 	let argsets: Vec<Value> = vec![
